@@ -104,7 +104,14 @@ type world struct {
 func newWorld(sc *Scenario) (*world, error) {
 	w := &world{sc: sc, marks: new(int)}
 	m := w.marks
-	root := template.New(sc.RootName).Funcs(template.FuncMap{"mark": func(args ...interface{}) string { *m++; return "" }})
+	var root *template.Template
+	// partial / has / count call back into the set while one of its templates is executing
+	root = template.New(sc.RootName).Funcs(template.FuncMap{
+		"mark":    func(args ...interface{}) string { *m++; return "" },
+		"partial": func(name string, d interface{}) (safehtml.HTML, error) { return root.ExecuteTemplateToHTML(name, d) },
+		"has":     func(name string) bool { return root.Lookup(name) != nil },
+		"count":   func() int { return len(root.Templates()) + len(root.DefinedTemplates()) },
+	})
 	if sc.Init != "" {
 		if _, err := root.ParseFromTrustedTemplate(tuc.TrustedTemplateFromStringKnownToSatisfyTypeContract(sc.Init)); err != nil {
 			return nil, err
